@@ -352,7 +352,7 @@ def run(tier):
 
     def one(ij):
         i, sp = ij
-        res = run_case('checks.c19:case', sp, os.path.join(wd, 'h%d' % i), timeout=600)
+        res = run_case('checks.c19:case', sp, os.path.join(wd, 'h%d' % i), timeout=(2400 if thorough else 900))
         cleanup(res['dir'])
         return sp, res
 
